@@ -96,8 +96,22 @@ def pacing_diff(rng, n, drv, res):
             res.violate(V("interrupt-stamp-wrong", f"stamp {stamp}, floor law gives {exp_stamp} for {c}", site="MasterScheduler.schedule_interrupt"), c)
 
 
-def timed_scenarios(rng, tier):
+def long_wait_scenarios():
+    """waits of tens of seconds up to minutes of real time between ticks, at several speeds (a callback 50 s ahead is
+    100 s of real time away at speed 1/2, 25 s at speed 2): the pacing law does not depend on the length of the wait"""
+    from .c07 import dev
     out = []
+    S_ = 1_000_000_000
+    for num, den in ([1, 2], [1, 4], [2, 1], [1, 1], [3, 2]):
+        for p in (10 * S_, 45 * S_, 50 * S_, 70 * S_, 150 * S_, 3600 * S_):
+            out.append({"components": [dev("far", cb={"kind": "period", "p": p * num}), dev("dep", {"i": ["far", "o"]}),
+                                       dev("other", cb={"kind": "list", "delays": [7 * S_ * num, None]})],
+                        "speed": [num, den], "t0": 0, "n_ticks": 4})
+    return out
+
+
+def timed_scenarios(rng, tier):
+    out = long_wait_scenarios()
     for i in range(24 if tier == "quick" else 240):
         scn = S.gen_flat(rng, callbacks=True, max_n=5) if i % 3 else S.gen_nested(rng, depth=2, max_n=5)
         num, den = rng.choice(SPEEDS)
@@ -112,6 +126,16 @@ def timed_scenarios(rng, tier):
                 cb["delays"] = [None if x is None else x * num for x in cb["delays"]]
             if i % 2:
                 d["beh"]["cost"] = rng.choice((0, 0, 50_000, 300_000))
+        if i % 6 == 0:
+            # the same at the scale of seconds / minutes: waits of more than a minute of REAL time between ticks (at speeds
+            # below 1 a callback 50 s ahead is 100 s away)
+            t0 = scn["t0"]
+            scn = S.rescale_times(scn, rng.choice((1_000, 10_000, 20_000, 60_000)), rng)
+            scn["t0"] = t0
+            for d in S.devices(scn):   # keep waits whole numbers of ns at this speed
+                cb = d["beh"].get("cb", {})
+                if cb.get("kind") == "period":
+                    cb["p"] = cb["p"] - cb["p"] % num
         devs = [d["name"] for d in S.devices(scn)]
         if i % 4 == 1:
             scn["stims"] = [{"real": k * 700_000 * den + 333 * den, "comp": rng.choice(devs)} for k in rng.sample(range(1, 9), rng.randrange(1, 3))]
